@@ -29,6 +29,8 @@ pub struct TreeCfg {
     pub drop_doctype: bool,
     pub discard_bom: bool,
     pub dsd_allow: bool,
+    #[serde(default)]
+    pub profile: bool,
 }
 
 impl Default for TreeCfg {
@@ -43,6 +45,7 @@ impl Default for TreeCfg {
             drop_doctype: false,
             discard_bom: false,
             dsd_allow: false,
+            profile: false,
         }
     }
 }
@@ -77,7 +80,7 @@ pub fn opts_of(cfg: &TreeCfg) -> ParseOpts {
         tokenizer: TokenizerOpts {
             exact_errors: cfg.tok_exact_errors,
             discard_bom: cfg.discard_bom,
-            profile: false,
+            profile: cfg.profile,
             initial_state: None,
             last_start_tag_name: None,
         },
@@ -169,6 +172,8 @@ use xml5ever::tokenizer::XmlTokenizerOpts;
 pub struct XmlCfg {
     pub exact_errors: bool,
     pub discard_bom: bool,
+    #[serde(default)]
+    pub profile: bool,
 }
 
 pub fn drive_xml<S: TreeSink>(
@@ -181,7 +186,7 @@ pub fn drive_xml<S: TreeSink>(
         tokenizer: XmlTokenizerOpts {
             exact_errors: cfg.exact_errors,
             discard_bom: cfg.discard_bom,
-            profile: false,
+            profile: cfg.profile,
             initial_state: None,
         },
         tree_builder: Default::default(),
